@@ -243,7 +243,9 @@ Sub make_sub(const std::string& name, std::function<rc::Gen<Case>()> gen,
                 alarm((unsigned)case_timeout_s());
                 std::string msg = run(c, ctx);
                 alarm(0);
-                crash_state().text.clear();
+                // heap damage done by a case may surface only later (in a destructor, in the next allocation, at exit): until the next case
+                // starts, a dying process still names the case that ran last
+                crash_state().text = header(name, "process died after this case had returned") + text;
                 if (!ctx.frozen) {
                     if (ctx.cur_nontrivial) ctx.nontrivial.insert(fnv1a(text));
                     if (!ctx.cur_sample.empty() && ctx.samples.size() < 4 &&
